@@ -59,8 +59,9 @@ func c11Fetch(p *ana.Prog, r *ana.Result) {
 	fname := ana.FuncName(fd)
 	rets := ana.ClassifyReturns(fd)
 	succ := isSuccessTarget(rets)
-	// pop: store to f.data.Cookie of slice f.data.Cookie[1:]
-	var pop *ssa.Store
+	// pop: store to f.data.Cookie of slice f.data.Cookie[1:] (one site, or one per return when the
+	// hand-out sequence is repeated)
+	var pops []*ssa.Store
 	nStores := 0
 	ana.Instrs(fd, func(in ssa.Instruction) {
 		st, ok := in.(*ssa.Store)
@@ -74,49 +75,75 @@ func c11Fetch(p *ana.Prog, r *ana.Result) {
 		}
 		k, ok := ana.ConstInt(sl.Low)
 		if ok && k == 1 && ana.AccessPath(sl.X) == "f.data.Cookie" {
-			pop = st
+			pops = append(pops, st)
 		}
 	})
-	if pop == nil || nStores != 1 {
-		r.Violate("C11.single-use", fname, "pop-first-cookie", p.Pos(fd.Pos()), fmt.Sprintf("FetchData does not drop exactly the first cookie (f.data.Cookie = f.data.Cookie[1:]) as its only pool update (stores found: %d)", nStores))
+	if len(pops) == 0 || nStores != len(pops) {
+		r.Violate("C11.single-use", fname, "pop-first-cookie", p.Pos(fd.Pos()), fmt.Sprintf("FetchData does not drop exactly the first cookie (f.data.Cookie = f.data.Cookie[1:]) as its only kind of pool update (stores found: %d, of that form: %d)", nStores, len(pops)))
 		return
 	}
-	s := &ana.Search{Fn: fd, Stop: func(in ssa.Instruction) bool { return in == ssa.Instruction(pop) }, Target: succ}
+	isPop := func(in ssa.Instruction) bool {
+		for _, q := range pops {
+			if in == ssa.Instruction(q) {
+				return true
+			}
+		}
+		return false
+	}
+	s := &ana.Search{Fn: fd, Stop: isPop, Target: succ}
 	if found, w := s.Run(nil); found {
-		r.Violate("C11.single-use", fname, "pop-on-every-success-path", posOf(p, pop), "FetchData can return data without removing the handed-out cookie from the pool (the same cookie is sent again)", w...)
+		r.Violate("C11.single-use", fname, "pop-on-every-success-path", posOf(p, pops[0]), "FetchData can return data without removing the handed-out cookie from the pool (the same cookie is sent again)", w...)
 	} else {
-		r.Ok("C11.single-use", fname, "pop-on-every-success-path", posOf(p, pop), "every success return passes f.data.Cookie = f.data.Cookie[1:]")
+		r.Ok("C11.single-use", fname, "pop-on-every-success-path", posOf(p, pops[0]), "every success return passes f.data.Cookie = f.data.Cookie[1:]")
+	}
+	for _, q := range pops {
+		s2 := &ana.Search{Fn: fd, Target: isPop}
+		if found, w := s2.Run(q); found {
+			r.Violate("C11.single-use", fname, "one-pop-per-call", posOf(p, q), "one call of FetchData can drop two cookies from the pool", w...)
+		}
 	}
 	// the returned Data is a copy of f.data taken before the pop
-	okCopy := false
+	okCopy, nRet := true, 0
 	for _, ri := range rets {
 		if ri.Class == "failure" {
 			continue
 		}
-		v := ri.Ret.Results[0]
-		// load of a local alloc `data` whose store is a load of f.data before the pop
-		if ld, ok := v.(*ssa.UnOp); ok {
-			if a, ok := ld.X.(*ssa.Alloc); ok {
-				for _, ref := range ana.Referrers(a) {
-					if st, ok := ref.(*ssa.Store); ok && st.Addr == ssa.Value(a) && ana.AccessPath(st.Val) == "f.data" {
-						if st.Block() == pop.Block() && instrIndex(st) < instrIndex(pop) || st.Block().Dominates(pop.Block()) && st.Block() != pop.Block() {
-							okCopy = true
-						}
-					}
+		nRet++
+		var pop *ssa.Store
+		for _, q := range pops {
+			if ana.InstrDominates(q, ri.Ret) {
+				pop = q
+			}
+		}
+		good := false
+		if pop != nil {
+			var vals []ssa.Value
+			v := ri.Ret.Results[0]
+			if ld, ok := v.(*ssa.UnOp); ok && ld.Op == token.MUL {
+				if a, ok := ld.X.(*ssa.Alloc); ok {
+					vals = ana.ReachingStores(fd, a)(ld)
+				} else {
+					vals = []ssa.Value{v}
+				}
+			} else if u := ana.UniqueReaching(fd, v); u != nil {
+				vals = []ssa.Value{u}
+			}
+			good = len(vals) > 0
+			for _, x := range vals {
+				src, ok := x.(*ssa.UnOp)
+				if !ok || x == ana.Unknown || ana.AccessPath(src) != "f.data" || !ana.InstrDominates(src, pop) {
+					good = false
 				}
 			}
 		}
-		if ana.AccessPath(v) == "f.data" {
-			// direct load: must precede the pop
-			if ld, ok := v.(*ssa.UnOp); ok && ld.Block() == pop.Block() && instrIndex(ld) < instrIndex(pop) {
-				okCopy = true
-			}
+		if !good {
+			okCopy = false
 		}
 	}
-	if okCopy {
-		r.Ok("C11.single-use", fname, "returns-copy-before-pop", posOf(p, pop), "the data returned is f.data as it was before the pop (Cookie[0] is the cookie to use)")
+	if okCopy && nRet > 0 {
+		r.Ok("C11.single-use", fname, "returns-copy-before-pop", posOf(p, pops[0]), "the data returned is f.data as it was before the pop (Cookie[0] is the cookie to use)")
 	} else {
-		r.Violate("C11.single-use", fname, "returns-copy-before-pop", posOf(p, pop), "the data returned is not the copy of f.data taken before the first cookie is dropped")
+		r.Violate("C11.single-use", fname, "returns-copy-before-pop", posOf(p, pops[0]), "the data returned is not the copy of f.data taken before the first cookie is dropped")
 	}
 }
 
@@ -212,6 +239,19 @@ func c11Request(p *ana.Prog, r *ana.Result) {
 			}
 		}
 		ok = initOK && incOK && condOK
+	}
+	if !ok {
+		// the same count written from zero: a counted loop whose bound is 8 - len(ntskeData.Cookie)
+		if bnd, isCounted := loopBound(nr, phAppends[0].Block()); isCounted {
+			pset := ana.NewProverSet(p.AllFuncs)
+			if l, okL := pset.For(nr).Int(bnd, 0); okL && l.C == 8 && len(l.Coef) == 1 {
+				for a, c := range l.Coef {
+					if c == -1 && a == "len(ntskeData.Cookie)" {
+						ok = true
+					}
+				}
+			}
+		}
 	}
 	nc := p.Const("net/nts", "numStoredCookies")
 	nv := int64(-1)
